@@ -104,6 +104,18 @@ C16OK(rec) == (rec.op \in {"resize", "shrink"} /\ rec.fail) =>
                  /\ C03OK(rec) /\ rec.out = "ok"
                  /\ (\E k \in 1..Len(rec.ev) : rec.ev[k][1] = "allocfail") =>
                        (Live(ToSt(rec.post)) = Live(ToSt(rec.pre)) /\ ToSt(rec.post).cap = ToSt(rec.pre).cap)
+\* Every transition the L0 machine (Hash.tla) can take from a state, in the argument space common to all scopes
+\* (allocation succeeding, walk to the end), must have been applied to the real table in that state.
+ModelOps(rec) == LET pre == ToSt(rec.pre) IN
+    {[op |-> "resize", cnt |-> c, f |-> f, fail |-> FALSE] : c \in 1..MaxB, f \in {Recs[1].funcs[x] : x \in 1..Len(Recs[1].funcs)}}
+    \cup {[op |-> "shrink", fail |-> FALSE], [op |-> "clear", cb |-> TRUE]}
+    \cup (IF ~pre.at THEN {} ELSE
+            {[op |-> "rehash"], [op |-> "foreach", stop |-> 0, er |-> FALSE]}
+            \cup {[op |-> "insert", e |-> e] : e \in (1..NE) \ Live(pre)}
+            \cup {[op |-> "erase", e |-> e] : e \in 1..NE}
+            \cup {[op |-> "find", k |-> KeyOf[e], mode |-> 0, x |-> 0] : e \in 1..NE})
+Applied(k, o) == \E j \in k..(k + Recs[k].g - 1) : Recs[j].op = o.op /\ \A f \in DOMAIN o : Recs[j][f] = o[f]
+OpsOK(k) == LET rec == Recs[k] IN ~Sane(rec.pre) \/ \A o \in ModelOps(rec) : Applied(k, o)
 VARIABLE i
 Judge(rec) ==
     /\ (IF Level # 2 \/ C16OK(rec) THEN TRUE ELSE PrintT(<<"L2FAIL", "C16", rec.id>>))
@@ -114,6 +126,7 @@ Judge(rec) ==
     /\ (IF Level # 1 \/ StepOK(rec) THEN TRUE ELSE PrintT(<<"L1DRIFT", "hash", rec.id>>))
 TInit == i = 1
 TNext == i < Len(Recs) /\ i' = i + 1 /\ Judge(Recs[i + 1])
+         /\ (IF Level # 1 \/ Recs[i + 1].g = 0 \/ OpsOK(i + 1) THEN TRUE ELSE PrintT(<<"OPSDIFF", "hash", Recs[i + 1].id>>))
 TSpec == TInit /\ [][TNext]_i
 Done == i = Len(Recs) => PrintT(<<"TRACE-END", i>>)
 =============================================================================
